@@ -414,12 +414,12 @@ def unit():
             raise Unsupported(f'GeoPolygon(holes=…) of type {holes.typ}')
         hs = holes.text if holes.typ != 'None' else '[]'
         if set(kws) == {'holes'}:
-            o = tr.expr_bind(init)
+            o = tr.gj_bind(init)
             return Val(f'(GV.GeoJson.Poly.mk {o} {hs})', 'GjPolyV')
         if set(kws) != {'holes', 'dt', 'properties'}:
             raise Unsupported(f'`{ast.unparse(e)[:80]}`')
         dt, props = tr.expr(kws['dt']), tr.expr(kws['properties'])       # arguments first, then the constructor's body
-        o = tr.expr_bind(init)
+        o = tr.gj_bind(init)
         return shape_of_vals(f'(GV.GeoJson.SGeom.polygon (GV.GeoJson.Poly.mk {o} {hs}))', dt, props)
 
     def mpoly_ctor(tr, e, x, kws):
@@ -633,11 +633,13 @@ def unit():
     pins = {k: P[k] for k in ('structures.py::GeoPolygon.bounds', 'structures.py::GeoLineString.bounds', 'structures.py::GeoRing.bounds',
                               '_base.py::MultiShapeBase.bounds', 'utils/functions.py::sanitize_json', '_base.py::BaseShape.__init__',
                               'structures.py::PolygonBase.__init__')}
-    hooks = {'isinstance': lambda typ: {'Pos': {'Coordinate'}}.get(typ), 'eq': eq_hook, 'truth': truth_hook, 'coerce': coerce_hook, 'to_j': to_j,
-             'expr_stmt': expr_stmt, 'keywords': lambda tr, e: True, 'call': call_hook, 'init': init_hook, 'as_dict': as_dict,
-             'expr': expr_hook, 'local_fn': local_fn, 'or_dict': or_dict, 'iter': iter_hook, 'local_type': local_type, 'always_truthy': ('TI', 'Dt')}
+    hooks = {'geojson_doc': True,        # the master switch of this unit's constructs in py2lean.py (`gj_*`)
+             'isinstance': lambda typ: {'Pos': {'Coordinate'}}.get(typ), 'eq': eq_hook, 'gj_truth': truth_hook,
+             'gj_coerce': coerce_hook, 'gj_to_j': to_j, 'expr_stmt': expr_stmt, 'keywords': lambda tr, e: True,
+             'gj_call': call_hook, 'init': init_hook, 'gj_as_dict': as_dict, 'gj_expr': expr_hook, 'gj_local_fn': local_fn,
+             'gj_or_dict': or_dict, 'gj_iter': iter_hook, 'local_type': local_type, 'always_truthy': ('TI', 'Dt')}
     return Unit('SrcGeoJson', src, 'GV.Src.GeoJson',
-                ['GeoVerif.Model.GeoJson', 'GeoVerif.Model.PyPrelude', 'GeoVerif.Gen.SrcTime'], insts,
+                ['GeoVerif.Model.GeoJson', 'GeoVerif.Model.PyPrelude', 'GeoVerif.Model.PyPreludeSeq', 'GeoVerif.Gen.SrcTime'], insts,
                 classes, pins=pins, header=HEADER, attr_types=attr, hooks=hooks, externals=srcunits._time_externals(),
                 intrinsics={'sanitize_json': sanitize, 'datetime.fromisoformat': fromiso},
                 abstract={('JObj', '__contains__', ('Str',)): ('GV.GeoJson.ohas {0} {1}', 'Bool')},
